@@ -528,6 +528,9 @@ def run(repo: Repo, res: Result, rule: str, scan_cls: ClassInfo | None, filter_c
                 undecided = undecided or f"the patterns handed to the scan are {show_term(t)}: cannot see whether they may be None"
                 continue
             elif sat(nn) and not consumer_tolerates_none:
+                if config_cls is not None and any(repo.lookup_method(config_cls, m) is not None for m in ("__post_init__", "__init__", "__new__")):
+                    undecided = undecided or f"{show_term(t)} may be None when it reaches `{config_cls.name}(...)`, whose own constructor code may or may not replace it"
+                    continue
                 none_ok = False
                 none_detail = f"{show_term(t)} reaches the scan un-normalised although it may be None (e.g. an empty `{GLOB}` tuple without `{REGEX}`): the scan iterates None"
             # glob patterns given
